@@ -4,8 +4,8 @@ namespace BiotiteModel.Driver.C07
 open BiotiteModel BiotiteModel.C07 BiotiteModel.Proto
 
 structure St where
-  atoms : List Atom := []
-  models : List (List Coord) := []
+  atoms : List AtomN := []
+  models : List (List CoordN) := []
   bonds : List (Nat × Nat) := []
   lines : List (List Char) := []
   cell : Option Cell := none
@@ -39,13 +39,18 @@ def parseFx (s : String) : Option Fx :=
     | _ => none
   | _ => none
 
+/-- a possibly non-finite float: `nan`, `+inf`, `-inf` or `[+-]m p e` -/
+def parseNum (s : String) : Option Num :=
+  if s == "nan" then some .nan else if s == "+inf" then some (.inf false) else if s == "-inf" then some (.inf true)
+  else (parseFx s).map .fin
+
 def parseBool (s : String) : Option Bool := if s == "1" then some true else if s == "0" then some false else none
 
-def parseCoords (s : String) : Option (List Coord) :=
+def parseCoords (s : String) : Option (List CoordN) :=
   if s == "_" then some [] else
   (s.splitOn ";").mapM fun t =>
     match t.splitOn "," with
-    | [x, y, z] => do let x ← parseFx x; let y ← parseFx y; let z ← parseFx z; pure (x, y, z)
+    | [x, y, z] => do let x ← parseNum x; let y ← parseNum y; let z ← parseNum z; pure (x, y, z)
     | _ => none
 
 def str (l : List Char) : String := String.ofList l
@@ -91,7 +96,7 @@ def step (st : St) (line : String) : St × String :=
     | none => (st, "bad-op")
   | ["atom", het, id, name, res, chain, resid, ins, el, occ, bf, q] =>
     match parseBool het, id.toInt?, unhex name, unhex res, unhex chain, resid.toInt?, unhex ins, unhex el,
-          parseFx occ, parseFx bf, q.toInt? with
+          parseNum occ, parseNum bf, q.toInt? with
     | some het, some id, some name, some res, some chain, some resid, some ins, some el, some occ, some bf, some q =>
       ({ st with atoms := st.atoms ++ [{ hetero := het, atomId := id, name := name, resName := res, chain := chain,
                                          resId := resid, insCode := ins, element := el, occ := occ, bf := bf,
@@ -109,7 +114,7 @@ def step (st : St) (line : String) : St × String :=
     match parseBool h36, parseBool hasId, parseBool hasB, parseBool hasOcc, parseBool hasQ, parseBool hasBonds with
     | some h36, some hasId, some hasB, some hasOcc, some hasQ, some hasBonds =>
       let fl : Flags := { h36 := h36, hasId := hasId, hasB := hasB, hasOcc := hasOcc, hasQ := hasQ, hasBonds := hasBonds }
-      match writePdbBox fl st.cell { atoms := st.atoms, models := st.models, bonds := st.bonds } with
+      match writePdbN fl st.cell { atoms := st.atoms, models := st.models, bonds := st.bonds } with
       | .ok ls => ({ st with lines := ls }, s!"ok {ls.length} |" ++ joinWith "|" (ls.map str) ++ "|")
       | .error e => ({ st with lines := [] }, showErr e)
     | _, _, _, _, _, _ => (st, "bad-op")
@@ -126,6 +131,15 @@ def step (st : St) (line : String) : St × String :=
     match parseBool b with
     | some b => (st, if st.lines.isEmpty then "no-file" else withCell (showR showRead (readPdb b st.lines)) st.lines)
     | none => (st, "bad-op")
+  | ["readalt", mode, b] =>
+    let m? : Option AltMode := if mode == "first" then some .first else if mode == "occupancy" then some .occupancy
+      else if mode == "all" then some .all else none
+    match m?, parseBool b with
+    | some m, some b =>
+      (st, if st.lines.isEmpty then "no-file" else
+        withCell (showR (fun r => showRead r.1 ++ (if m == .all then " L:" ++ String.ofList (r.2.map fun c => if c == ' ' then '_' else c) else ""))
+          (readPdbAlt m b st.lines)) st.lines)
+    | _, _ => (st, "bad-op")
   | ["readmodel", k, b] =>
     match k.toInt?, parseBool b with
     | some k, some b => (st, if st.lines.isEmpty then "no-file" else withCell (showR showRead (readModel k b st.lines)) st.lines)
